@@ -6,7 +6,7 @@ correspondence: replay of the traced operations of every pass on MeshOps.v (extr
 oracle:         total momentum, unmoved survivors, volume/area change only through collapses and swaps, fixpoint on
                 conforming meshes, return-or-throw within a time budget."""
 import random, json, math
-import vlib, refine_common as rc
+import vlib, tissue, refine_common as rc
 
 LEVEL = "proof"
 DYN = True
@@ -67,6 +67,15 @@ def run(ck):
                 maxc = max(abs(x) for n in live1.values() for x in n["p"])
                 if abs(v0 - v1) > 1e-11 * len(live1) * maxc ** 3 or abs(a0 - a1) > 1e-9 * a0:
                     fails.append((ci, k, "split_keeps_volume_and_area (6V %.6g -> %.6g, A %.6g -> %.6g with only splits)" % (v0, v1, a0, a1))); break
+                # a split hands the label of a triangle to its two halves: the area carried by every label is unchanged
+                def by_label(s_):
+                    d_ = {}
+                    for f_ in rc.live_faces(s_):
+                        d_[f_["ty"]] = d_.get(f_["ty"], 0.0) + tissue.area([n_["p"] for n_ in s_["nodes"]], [f_["tri"]])
+                    return d_
+                l0, l1 = by_label(pre), by_label(st)
+                if any(abs(l0.get(t_, 0.0) - l1.get(t_, 0.0)) > 1e-9 * a0 for t_ in set(l0) | set(l1)):
+                    fails.append((ci, k, "split_inherits_face_type (area per label %s -> %s with only splits)" % ({t_: "%.6g" % v_ for t_, v_ in sorted(l0.items())}, {t_: "%.6g" % v_ for t_, v_ in sorted(l1.items())}))); break
             # fixpoint
             if c.get("conforming") and st["name"] == "REFINE":
                 same = (not tr and [(n["used"], n["p"], n["m"]) for n in pre["nodes"]] == [(n["used"], n["p"], n["m"]) for n in st["nodes"]]
